@@ -352,7 +352,7 @@ func runLeg(l leg, tier string, batch uint64, workers int, scratch string) (*leg
 			// The worker had already found an ordinary violation and died while
 			// trying shrink candidates in-process. Redo the minimisation with
 			// child-process executions.
-			plan := info.Sc.Generate(stt.Seed, tier)
+			plan := info.Sc.Generate(stt.Seed, tierFor(tier, stt.Idx))
 			pj, _ := json.Marshal(plan)
 			o, died, _, _, _, _ := execChild(l, dir, pj, 600*time.Second)
 			if died || o.Fail == nil {
@@ -379,7 +379,7 @@ func runLeg(l leg, tier string, batch uint64, workers int, scratch string) (*leg
 		if want == nil {
 			return nil, fatal2("worker %d of %s died (%s, exit %d) at run %d step %d incall=%d and the death is not attributable to the code under test:\n%s", i, l.scenario, kind, pr.exit, stt.Idx, stt.Step, stt.InCall, tail(stderr, 4000))
 		}
-		plan := info.Sc.Generate(stt.Seed, tier)
+		plan := info.Sc.Generate(stt.Seed, tierFor(tier, stt.Idx))
 		pj, _ := json.Marshal(plan)
 		// confirm in a fresh child
 		_, died, k2, ec2, se2, st2 := execChild(l, dir, pj, 600*time.Second)
